@@ -21,6 +21,10 @@ function mk(name, vals, hasReturn, hasThrow, retDone) {
   return { [Symbol.iterator]() { return it; } };
 }
 function f2(a, b) { return [a, b]; }
+function* innerc() { try { yield 'c1'; yield 'c2'; } catch (e) { log('innerc caught ' + describe(e)); return 'innerc ret'; } return 'innerc end'; }
+function mkf(name, k) { var i = 0; return { [Symbol.iterator]() { return this; }, next(v) { i++; log(name + '.next#' + i + ' ' + describe(v)); if (i === k) throw new RangeError(name + ' fails'); return {value: name + i, done: i > 3}; } }; }
+function mkt(name) { var i = 0; return { [Symbol.iterator]() { return this; }, next() { i++; return {value: i, done: i > 2}; }, return(v) { log(name + '.return'); throw new RangeError(name + ' return throws'); } }; }
+function pc(v) { var p = Promise.resolve(v); p.constructor = Object; return p; }
 function at(d, f) { return d > 0 ? at(d - 1, f) : f(); }
 function deepTry(d) { try { if (d > 0) deepTry(d - 1); } finally { } } // grows the VM's try stack while an iterator is being closed
 function reenter(m) { try { log(it[m]('re')); log('reentered'); } catch (e) { log('reenter ' + m + ' ' + e.constructor.name); } }
@@ -41,7 +45,9 @@ func (g *g2) yieldExpr() *Node {
 	g.n++
 	v := Str(fmt.Sprintf("y%d", g.n))
 	if g.async {
-		switch g.draw(4, "aw") {
+		switch g.draw(5, "aw") {
+		case 4:
+			return Await(Call(Id("pc"), v))
 		case 0:
 			return Await(v)
 		case 1:
@@ -51,7 +57,18 @@ func (g *g2) yieldExpr() *Node {
 		}
 		return Await(Obj(Method(Key("then"), false, Func("method", "", Params(Id("r")), ExprStmt(Call(Id("r"), v))))))
 	}
-	switch g.draw(8, "yk") {
+	switch g.draw(12, "yk") {
+	case 8:
+		// a delegate that catches what is thrown in and completes: throw() then resumes this generator normally
+		return YieldStar(Call(Id("innerc")))
+	case 9:
+		// the value of the yield* is discarded while other operands are pending
+		return Seq(YieldStar(Call(Id([]string{"innerc", "inner"}[g.draw(2, "dk")]))), v)
+	case 10:
+		// a delegate whose next() fails at its k-th call
+		return YieldStar(Call(Id("mkf"), v, Num(float64(1+g.draw(3, "fk")))))
+	case 11:
+		return Yield(v)
 	case 0:
 		return YieldStar(Call(Id("inner")))
 	case 1:
@@ -75,7 +92,19 @@ func (g *g2) stmt() *Node {
 	if g.budget <= 0 {
 		return Log(g.yieldExpr())
 	}
-	switch g.draw(26, "s") {
+	switch g.draw(27, "s") {
+	case 26:
+		if g.async {
+			return Log(g.yieldExpr())
+		}
+		// two open iterators whose return() both throw: closing them (return()/throw() from the driver, break) must
+		// call both, innermost first, and the first exception wins
+		g.loops++
+		body := Block(g.stmts(1)...)
+		g.loops--
+		g.n++
+		o, i := fmt.Sprintf("o%d", g.n), fmt.Sprintf("i%d", g.n)
+		return ForOf(VarDecl("const", Declarator(Id(o+"v"), nil)), Call(Id("mkt"), Str(o)), Block(ForOf(VarDecl("const", Declarator(Id(i+"v"), nil)), Call(Id("mkt"), Str(i)), body)))
 	case 24, 25:
 		// a function-level variable that lives in the scope object (captured by fvf): reading and writing it
 		// after a resumption / inside a finally entered by return() needs the right scope chain to be current
@@ -194,7 +223,7 @@ func GenGeneratorCase(t *rapid.T) (*Node, Options, bool) {
 		prog.Kids = append(prog.Kids,
 			FuncDecl("async", "af", Params(Id("p")), body...),
 			ExprStmt(Call(Dot(Call(Id("at"), Num(float64([]int{0, 1, 3}[g.draw(3, "aat")])), Func("function", "", Params(), Return(Call(Id("af"), Num(1))))), "then"), ArrowExpr(Params(Id("v")), Call(Id("log"), Arr(Str("resolved"), Id("v"), Id("acc")))), ArrowExpr(Params(Id("e")), Call(Id("log"), Arr(Str("rejected"), Id("e"), Id("acc")))))),
-			ExprStmt(Call(Dot(Call(Dot(Id("Promise"), "resolve")), "then"), ArrowExpr(Params(), Call(Id("log"), Str("tick"))))),
+			ExprStmt(Call(Dot(Call(Dot(Call(Dot(Call(Dot(Call(Dot(Id("Promise"), "resolve")), "then"), ArrowExpr(Params(), Call(Id("log"), Str("tick1")))), "then"), ArrowExpr(Params(), Call(Id("log"), Str("tick2")))), "then"), ArrowExpr(Params(), Call(Id("log"), Str("tick3")))), "then"), ArrowExpr(Params(), Call(Id("log"), Str("tick4"))))),
 			Log(Str("sync end")))
 	} else {
 		prog.Kids = append(prog.Kids, FuncDecl("generator", "gf", Params(Id("p")), body...), Var("it", Call(Id("gf"), Num(1))))
